@@ -11,13 +11,15 @@
      GetCert(c)  mitmproxy/addons/tlsconfig.py  TlsConfig.get_cert: altnames = upstream CN + upstream SANs (if
                  upstream_cert and a server certificate is known), then SNI or local address, then server address;
                  first occurrence kept; cn = first altname.  _ip_or_dns_name() IDNA-encodes the upstream CN, the SNI
-                 and the addresses and raises UnicodeError for a string with an empty or > 63 byte label (BadIdna).
+                 and the addresses and raises UnicodeError for a string with an empty or > 63 byte label (BadIdna);
+                 since bf9975be6 such an upstream CN is skipped (LegacyCnRaises: the hook raised, no certificate).
      Issue       mitmproxy/certs.py  CertStore.get_cert (cache keyed by (cn, sans); a hit returns the earlier entry)
                  and dummy_cert: issuer = CA subject, validity = now - 2 d .. now + 197 d with now a NAIVE LOCAL time
                  that cryptography reads as UTC (so both ends move by the zone offset), EKU serverAuth, CN only if
                  shorter than 64 characters (Long tokens have none), O = upstream organization, SANs = altnames,
-                 marked critical exactly when the CN was left out -- even if O makes the subject non-empty, which a
-                 strict verifier rejects (CritSan); then the handshake presents it.  The cache key ignores O.
+                 marked critical exactly when the subject is empty (25ceae060; LegacyCritSan: whenever the CN was left
+                 out, even if O makes the subject non-empty, which a strict verifier rejects -- CritSan); then the
+                 handshake presents it.  The cache key ignores O.
    (STORE_CAP eviction is C17's subject and not modelled: MaxConns is far below the capacity.)               *)
 EXTENDS Mon_LeafCert, TLC
 CONSTANTS Envs,      \* set of <<ca, tz>>
@@ -27,7 +29,8 @@ CONSTANTS Envs,      \* set of <<ca, tz>>
           Conns2,    \* connections that may follow
           MaxConns,
           Long,      \* tokens whose text is >= 64 characters
-          BadIdna    \* tokens whose text the idna codec rejects
+          BadIdna,   \* tokens whose text the idna codec rejects
+          LegacyCnRaises, LegacyCritSan   \* named deviations before bf9975be6 / 25ceae060 (FALSE = the current code)
 VARIABLES env, pc, cur, store, n, mon, obs
 vars == <<env, pc, cur, store, n, mon, obs>>
 
@@ -49,9 +52,11 @@ Opt(x) == IF x = "none" THEN <<>> ELSE <<x>>
 
 Ident(c) == IF c.sni # "none" THEN c.sni ELSE c.local
 UpNames(c) == Opt(c.upcn) \o c.upsans                      \* names of the upstream certificate, if one is known
-AltNames(c) == Dedup((IF c.upopt THEN UpNames(c) ELSE <<>>) \o <<Ident(c)>> \o Opt(c.addr), {})
-\* strings that go through _ip_or_dns_name (upstream SANs are copied as GeneralName objects, not re-encoded)
-Encoded(c) == (IF c.upopt THEN Opt(c.upcn) ELSE <<>>) \o <<Ident(c)>> \o Opt(c.addr)
+\* bf9975be6: an upstream CN the idna codec rejects is ignored (its SANs are still copied)
+UpUsed(c) == (IF c.upcn \in BadIdna /\ ~LegacyCnRaises THEN <<>> ELSE Opt(c.upcn)) \o c.upsans
+AltNames(c) == Dedup((IF c.upopt THEN UpUsed(c) ELSE <<>>) \o <<Ident(c)>> \o Opt(c.addr), {})
+\* strings that go through _ip_or_dns_name unguarded (upstream SANs are copied as GeneralName objects, not re-encoded)
+Encoded(c) == (IF c.upopt /\ LegacyCnRaises THEN Opt(c.upcn) ELSE <<>>) \o <<Ident(c)>> \o Opt(c.addr)
 Raises(c) == \E i \in 1..Len(Encoded(c)) : Encoded(c)[i] \in BadIdna
 RaiseSrc(c) == IF c.upopt /\ c.upcn \in BadIdna THEN "upstream_cn" ELSE "other"
 
@@ -81,7 +86,7 @@ Issue ==
                    allowed |-> Dedup(<<Ident(c)>> \o Opt(c.addr) \o UpNames(c), {}),
                    names |-> (IF cur.cn \in Long THEN <<>> ELSE <<cur.cn>>) \o cur.alt,
                    issuer_ok |-> TRUE, nb |-> (tz - 48) * 3600, na |-> (tz - 48 + 199 * 24) * 3600,
-                   eku_server |-> TRUE, verify |-> IF cur.cn \in Long /\ org THEN CritSan ELSE "ok",
+                   eku_server |-> TRUE, verify |-> IF LegacyCritSan /\ cur.cn \in Long /\ org THEN CritSan ELSE "ok",
                    fresh |-> ~Cached(key),
                    icls |-> c.icls, ca |-> env[1]]>>)
   /\ pc' = "idle" /\ cur' = NoCur /\ UNCHANGED <<env, n>>
